@@ -342,6 +342,9 @@ def translate_c(path):
             and outer[2] == ("cmp", "<=", ("var", "i"), ("var", "m")) and outer[3] == ("inc", "i"),
             "outer loop  for (i=1; i<=m; ++i)")
     ob = outer[4]
+    if len(ob) == 7 and ob[1][0] == "set" and ob[1][1] == ("var", "abszdiff") and ob[2][0] == "while":
+        raise TranslateError("skeleton: Newton loop is  abszdiff = fabs(z-z1); while (abszdiff > EPS) {...}  -- the UNREPAIRED form "
+                             "(never entered for npts=1: weight inf); the model describes the repaired do {...} while loop")
     _expect(len(ob) == 6, "outer loop body: z=cos(..); do-while; 4 array writes (found %d statements)" % len(ob))
     e_z = setvar(ob[0], "z")
     _expect(e_z[0] == "call" and e_z[1] == "cos", "start value z = cos(...)")
